@@ -7,6 +7,7 @@ from contracts import metamol_init as MI
 P_UNITS = [PUnit("seq-option-linear-chain", S.CONTRACTS, S.REG),
            PUnit("file-reader-linear-chain", [S.LINEAR_NX], S.REG2),
            PUnit("metamolecule-constructor", MI.CONTRACTS, MI.REG),
+           PUnit("termini-of-a-residue-graph", [S.TERMINAL_NODES], S.REG3),
            LUnit("constructor-contract-is-init-postcondition", S.lemma_ctor_alias),
            LUnit("prefix-sum-monotone", S.lemma_ps_monotone)]
 
